@@ -114,19 +114,14 @@ def simplify(plan):
 class Store(object):
     """One storage with its handles (tensor / discretized spaces)."""
 
-    def __init__(self, space, arr):
+    def __init__(self, space, arr, model):
         self.space = space
         self.arr = arr
         self.elem = space.element(arr)
-        # the model array has the *same memory layout* as the storage: NumPy
-        # picks different inner loops (SIMD / FMA) for contiguous and strided
-        # data, which differ in the last bit
-        if arr.base is not None and not arr.flags.c_contiguous and \
-                not arr.flags.f_contiguous:
-            base = np.array(arr.base, copy=True)
-            self.model = base[..., 1::2]
-        else:
-            self.model = np.array(arr, copy=True, order='K')
+        # the model array is built by the same recipe as the storage, so it
+        # has the *same strides*: NumPy picks different inner loops (SIMD /
+        # FMA) depending on the strides, which differ in the last bit
+        self.model = model
 
     def handle(self, kind):
         if kind == 'arr':
@@ -138,6 +133,18 @@ class Store(object):
         if kind == 'view':
             return self.elem.asarray()
         raise HarnessError(kind)
+
+
+def _layout(vals, lay):
+    if lay == 'F':
+        return np.array(vals, order='F', copy=True)
+    if lay == 'strided':
+        big = np.zeros(vals.shape[:-1] + (2 * vals.shape[-1] + 1,),
+                       dtype=vals.dtype)
+        view = big[..., 1::2]
+        view[...] = vals
+        return view
+    return np.array(vals, order='C', copy=True)
 
 
 def _build_space(sp):
@@ -166,15 +173,9 @@ def execute(plan, ctx):
         if np.dtype(S.dtype).kind in 'iu':
             arr = np.asarray(g.integers(1, 6, size=S.shape)).astype(S.dtype)
         lay = (sp.get('layouts') or ['C'])[s % len(sp.get('layouts') or ['C'])]
-        if lay == 'F':
-            arr = np.asfortranarray(arr)
-        elif lay == 'strided':
-            big = np.zeros(arr.shape[:-1] + (2 * arr.shape[-1] + 1,),
-                           dtype=arr.dtype)
-            view = big[..., 1::2]
-            view[...] = arr
-            arr = view
-        st = Store(S, arr)
+        vals = arr
+        arr, model = _layout(vals, lay), _layout(vals, lay)
+        st = Store(S, arr, model)
         # wrapping an array of matching dtype and shape shares memory
         ea = elem_arrays(st.elem)[0]
         if not np.shares_memory(ea, arr):
